@@ -7,6 +7,7 @@ f8_0:
   call f17_0
   call f14_0
   lea d_f8_0(%rip),%rax
+  mov wvsv1@GOTPCREL(%rip),%rax
   ret
 .section .data.d_f8_0,"aw",@progbits
 .globl d_f8_0
@@ -19,4 +20,6 @@ f8_1:
   ret
   call f2_1
   call f1_0
+  mov wvsv0@GOTPCREL(%rip),%rax
+  mov wvsv0(%rip),%rax
   ret
